@@ -164,4 +164,46 @@ def WFBody (ins : List InD) (nOut : Nat) : BodyD → Prop
   | .v2 (some r) => ins ≠ [] ∧ WFRct ins.length nOut (ringSize ins) r ∧ (match r with | .null => True | _ => ringSize ins ≠ 0)
 def WFTxD (d : TxD) : Prop :=
   u64 d.unlock ∧ (∀ i ∈ d.ins, WFIn i) ∧ (∀ o ∈ d.outs, WFOut o) ∧ WFBody d.ins d.outs.length d.body
+/-- well-shaped block description: u64 header numbers, 32-byte previous id, u32 nonce, well-shaped miner transaction, 32-byte hashes -/
+def WFHeaderD (h : HeaderD) : Prop := u64 h.major ∧ u64 h.minor ∧ u64 h.timestamp ∧ is32 h.prevId ∧ h.nonce < 2^32
+def WFBlockD (b : BlockD) : Prop := WFHeaderD b.hdr ∧ WFTxD b.miner ∧ all32 b.txHashes
+
+/-! The same layout once more, TABLE-DRIVEN: `specBaseT` / `specPrunableT` decide every type-dependent choice by membership in the
+tables above (`tagsRct`, `usesBulletproof`, `usesBulletproofPlus`, `bpCountIsVarint`, `usesClsag`, `pseudoOutsInPrunable`) applied to the
+type `tyOf r` of the description; proved equal to `specBase` / `specPrunable` in Props/C03 (`C03_spec_is_table_driven`), so that the tables
+compared with the regenerated source tables are the ones the layout actually follows. -/
+def tyOf : RctD → RctTy
+  | .null => .Null | .full .. => .Full | .simple .. => .Simple | .bulletproof .. => .Bulletproof
+  | .bulletproof2 .. => .Bulletproof2 | .clsag .. => .Clsag | .bpplus .. => .BulletproofPlus
+def RctD.fee : RctD → Nat
+  | .null => 0 | .full f .. => f | .simple f .. => f | .bulletproof f .. => f | .bulletproof2 f .. => f | .clsag f .. => f | .bpplus f .. => f
+def RctD.pseudoOuts : RctD → List B
+  | .simple _ po _ _ _ _ => po | .bulletproof _ _ _ _ _ po => po | .bulletproof2 _ _ _ _ _ po => po | .clsag _ _ _ _ _ po => po
+  | .bpplus _ _ _ _ _ po => po | _ => []
+/-- the encrypted-amount entries as byte strings (mask ‖ amount for the legacy form) -/
+def RctD.ecdhEntries : RctD → List B
+  | .null => [] | .full _ e _ _ _ => e.map specEcdhFull | .simple _ _ e _ _ _ => e.map specEcdhFull | .bulletproof _ e _ _ _ _ => e.map specEcdhFull
+  | .bulletproof2 _ e _ _ _ _ => e | .clsag _ e _ _ _ _ => e | .bpplus _ e _ _ _ _ => e
+def RctD.outPk : RctD → List B
+  | .null => [] | .full _ _ o _ _ => o | .simple _ _ _ o _ _ => o | .bulletproof _ _ o _ _ _ => o | .bulletproof2 _ _ o _ _ _ => o
+  | .clsag _ _ o _ _ _ => o | .bpplus _ _ o _ _ _ => o
+def RctD.rangeSigs : RctD → List RangeSigD | .full _ _ _ rs _ => rs | .simple _ _ _ _ rs _ => rs | _ => []
+def RctD.bps : RctD → List BpD | .bulletproof _ _ _ b _ _ => b | .bulletproof2 _ _ _ b _ _ => b | .clsag _ _ _ b _ _ => b | _ => []
+def RctD.bpps : RctD → List BppD | .bpplus _ _ _ b _ _ => b | _ => []
+def RctD.mgs : RctD → List MgD | .full _ _ _ _ mg => [mg] | .simple _ _ _ _ _ m => m | .bulletproof _ _ _ _ m _ => m | .bulletproof2 _ _ _ _ m _ => m | _ => []
+def RctD.clsags : RctD → List ClsagD | .clsag _ _ _ _ c _ => c | .bpplus _ _ _ _ c _ => c | _ => []
+
+def tagOfTy (t : RctTy) : B := match tagsRct.find? (fun p => p.2 = t) with | some p => [UInt8.ofNat p.1] | none => []
+def specBaseT (r : RctD) : B :=
+  let ty := tyOf r
+  tagOfTy ty ++ (if ty = .Null then [] else
+    varint r.fee ++ (if ty ∈ pseudoOutsInPrunable then [] else cat r.pseudoOuts) ++ cat r.ecdhEntries ++ cat r.outPk)
+def specPrunableT (r : RctD) : B :=
+  let ty := tyOf r
+  if ty = .Null then [] else
+  (if ty ∈ usesBulletproof then (if ty ∈ bpCountIsVarint then varint r.bps.length else u32le r.bps.length) ++ cat (r.bps.map specBp)
+   else if ty ∈ usesBulletproofPlus then varint r.bpps.length ++ cat (r.bpps.map specBpp)
+   else cat (r.rangeSigs.map specRangeSig)) ++
+  (if ty ∈ usesClsag then cat (r.clsags.map specClsag) else cat (r.mgs.map specMg)) ++
+  (if ty ∈ pseudoOutsInPrunable then cat r.pseudoOuts else [])
 end Spec
